@@ -168,7 +168,9 @@ func c02Gen(c *vfCtx, emit func(c02Case)) {
 	for _, api := range []string{"snap", "json", "yaml"} {
 		vals := map[string][2]string{"snap": {"a\nb", "a\nc"}, "json": {`{"a":1}`, `{"a":2}`}, "yaml": {"a: 1\nb: 2\n", "a: 1\nb: 3\n"}}[api]
 		for _, color := range []bool{false, true} {
-			for _, fm := range []string{"file-nofinalnl", "file-crlf"} {
+			// file-swapped: the process looked the slot up before (it held r then); the file is then replaced from outside by one of the
+			// same size with the same modification time (cp -p, rsync -t, a checkout within the clock's resolution) that holds s
+			for _, fm := range []string{"file-nofinalnl", "file-crlf", "file-swapped"} {
 				emit(c02Case{API: api, S: vals[0], R: vals[1], Color: color, Mode: fm})
 			}
 		}
@@ -311,11 +313,25 @@ func c02Run(c *vfCtx, cs c02Case) {
 	}
 	// record(s) once per (api, s): replays that behave do not modify anything
 	if c02Cache.key != key {
+		var swapIn []byte
+		if fileMode == "file-swapped" {
+			// what the file looks like when it holds s: recorded by the library itself, in a world of its own
+			d0 := c.newWorld()
+			vfResetState(false, "", true)
+			t0 := &vfT{name: "TestA"}
+			vfCall{API: cs.API, Val: cs.S}.do(t0, d0)
+			t0.end()
+			swapIn, _ = os.ReadFile(filepath.Join(d0, "f.snap"))
+		}
 		dir := c.newWorld()
 		vfResetState(false, "", true)
 		t := &vfT{name: "TestA"}
 		mk := t.mark()
-		vfCall{API: cs.API, Val: cs.S}.do(t, dir)
+		first := cs.S
+		if fileMode == "file-swapped" {
+			first = cs.R
+		}
+		vfCall{API: cs.API, Val: first}.do(t, dir)
 		t.end()
 		c.count("transitions", 1)
 		if o := t.outcome(mk); o != "added" {
@@ -323,7 +339,23 @@ func c02Run(c *vfCtx, cs c02Case) {
 			c02Cache.key = ""
 			return
 		}
-		if fileMode != "" {
+		if fileMode == "file-swapped" {
+			p := filepath.Join(dir, "f.snap")
+			vfPlantSentinel(dir) // (sets the modification times; done before the look-up so that the times really are the same)
+			st, err := os.Stat(p)
+			t1 := &vfT{name: "TestA"}
+			vfCall{API: cs.API, Val: cs.R}.do(t1, dir) // the look-up before the swap
+			t1.end()
+			old, _ := os.ReadFile(p)
+			nb, err2 := swapIn, error(nil)
+			if err != nil || err2 != nil || len(t1.errs) > 0 || len(nb) != len(old) || bytes.Equal(nb, old) {
+				c.harnessErr("C02 file-swapped setup (%s): %v %v %v; %q / %q", cs.API, err, err2, t1.errs, old, nb)
+				return
+			}
+			os.WriteFile(p, nb, 0o644)
+			os.Chtimes(p, st.ModTime(), st.ModTime())
+			vfResetState(false, "", true)
+		} else if fileMode != "" {
 			p := filepath.Join(dir, "f.snap")
 			b, _ := os.ReadFile(p)
 			if fileMode == "file-nofinalnl" {
